@@ -2,18 +2,101 @@ import Driver.Util
 import Lattigo.Gen.ModRed
 import Lattigo.Gen.Butterfly
 import Lattigo.Gen.VecLanes
+import Lattigo.Model.BRedConst
+import Lattigo.Model.Vec
+import Lattigo.Model.NTT
+import Lattigo.Model.RPoly
 
 namespace Driver.C01
 open Driver Lattigo Lattigo.Gen
 
-def nat3 (a b c : String) : Option (Nat × Nat × Nat) := do
-  some (← a.toNat?, ← b.toNat?, ← c.toNat?)
+def nats? (l : List String) : Option (List Nat) := l.mapM (·.toNat?)
+
+def word (fn : String) (a : List Nat) : Option String :=
+  match fn, a with
+  | "genmred", [q] => some (toString (GenMRedConstant q))
+  | "genbred", [q] => some s!"{(brc q).1},{(brc q).2}"
+  | "mred", [x, y, q, qi] => some (toString (MRed x y q qi))
+  | "mredlazy", [x, y, q, qi] => some (toString (MRedLazy x y q qi))
+  | "bred", [x, y, q] => some (toString (BRed x y q (brc q)))
+  | "bredlazy", [x, y, q] => some (toString (BRedLazy x y q (brc q)))
+  | "bredadd", [x, q] => some (toString (BRedAdd x q (brc q)))
+  | "bredaddlazy", [x, q] => some (toString (BRedAddLazy x q (brc q)))
+  | "mform", [x, q] => some (toString (MForm x q (brc q)))
+  | "mformlazy", [x, q] => some (toString (MFormLazy x q (brc q)))
+  | "imform", [x, q, qi] => some (toString (IMForm x q qi))
+  | "imformlazy", [x, q, qi] => some (toString (IMFormLazy x q qi))
+  | "cred", [x, q] => some (toString (CRed x q))
+  | _, _ => none
+
+def nttOp (kind : String) (T : NTT.Tables) (a : List Nat) : Option (List Nat) :=
+  match kind with
+  | "std" => some (NTT.nttStd T a)
+  | "stdlazy" => some (NTT.nttStdLazy T a)
+  | "istd" => some (NTT.inttStd T a)
+  | "istdlazy" => some (NTT.inttStdLazy T a)
+  | "ci" => some (NTT.nttCI T a)
+  | "cilazy" => some (NTT.nttCILazy T a)
+  | "ici" => some (NTT.inttCI T a)
+  | "icilazy" => some (NTT.inttCILazy T a)
+  | _ => none
+
+/-- `AutomorphismNTTIndex` (ring/automorphism.go) -/
+def autIndex (n nthRoot gal : Nat) : List Nat :=
+  let logNth := Nat.log2 nthRoot - 1   -- bits.Len64(NthRoot-1) - 1
+  let mask := nthRoot - 1
+  (List.range n).map fun i =>
+    let tmp1 := 2 * NTT.bitRev i logNth + 1
+    let tmp2 := (u64sub (u64and (u64mul gal tmp1) mask) 1) / 2
+    NTT.bitRev tmp2 logNth
 
 def handle (toks : List String) : String :=
   match toks with
-  | ["mred", x, y, q, qi] => match (x.toNat?, y.toNat?, q.toNat?, qi.toNat?) with
-      | (some x, some y, some q, some qi) => toString (MRed x y q qi)
-      | _ => badOp
+  | "w" :: fn :: args =>
+    match nats? args with
+    | some a => (word fn a).getD badOp
+    | none => badOp
+  | ["vec", name, q, s0, s1, p1, p2, p3] =>
+    match q.toNat?, s0.toNat?, s1.toNat?, parseVec? p1, parseVec? p2, parseVec? p3 with
+    | some q, some s0, some s1, some p1, some p2, some p3 =>
+      match Vec.op (Vec.mkSub q) name p1 p2 p3 s0 s1 with
+      | some v => showVec v
+      | none => badOp
+    | _, _, _, _, _, _ => badOp
+  | ["tables", n, q, nth, g] =>
+    match n.toNat?, q.toNat?, nth.toNat?, g.toNat? with
+    | some n, some q, some nth, some g =>
+      let T := NTT.mkTables n q nth g
+      s!"{showVec T.rootsF.toList}|{showVec T.rootsB.toList}|{T.nInv}|{T.qinv}|{T.bred.1},{T.bred.2}"
+    | _, _, _, _ => badOp
+  | ["ntt", kind, n, q, nth, g, a] =>
+    match n.toNat?, q.toNat?, nth.toNat?, g.toNat?, parseVec? a with
+    | some n, some q, some nth, some g, some a =>
+      match nttOp kind (NTT.mkTables n q nth g) a with
+      | some v => showVec v
+      | none => badOp
+    | _, _, _, _, _ => badOp
+  | ["rpmul", q, a, b] =>
+    match q.toNat?, parseVec? a, parseVec? b with
+    | some q, some a, some b => showVec (RPoly.rowMul q a b)
+    | _, _, _ => badOp
+  | ["rpaut", qs, gal, rows] =>
+    match parseVec? qs, gal.toNat?, parseMat? rows with
+    | some qs, some gal, some rows => showMat ((RPoly.aut { qs := qs, c := rows } gal).c)
+    | _, _, _ => badOp
+  | ["rpmono", qs, k, rows] =>
+    match parseVec? qs, k.toInt?, parseMat? rows with
+    | some qs, some k, some rows =>
+      -- ring.MultByMonomial computes `(k + 2N) % 2N` with Go's truncated `%`: for k < -2N the shift is
+      -- negative and the code indexes out of range (panic)
+      let n := (rows.headD []).length
+      if k + 2 * (n : Int) < 0 then "panic"
+      else showMat ((RPoly.mulMonomial { qs := qs, c := rows } k).c)
+    | _, _, _ => badOp
+  | ["autidx", n, nth, gal] =>
+    match n.toNat?, nth.toNat?, gal.toNat? with
+    | some n, some nth, some gal => showVec (autIndex n nth gal)
+    | _, _, _ => badOp
   | _ => badOp
 
 end Driver.C01
